@@ -15,7 +15,7 @@ CHECK = {'title': 'External commands cannot hang or crash fan2go',
          'util.SafeCmdExecution with timeouts 0.2, 0.5 and 2 s, and through the real CmdFan.GetPwm, CmdFan.GetRpm, CmdFan.SetPwm and '
          'CmdSensor.GetValue (2 s fixed by fan2go); additionally, for 7 getRpm failure modes, three goroutines inside CmdFan.GetRpm while a fourth '
          'calls GetRpm / GetPwm / SetPwm / GetRpmAvg / SetRpmAvg on the same CmdFan, every call judged on its own clock. Each (failure mode, timeout or call site) pair is one evaluation; '
-         'distinct_nontrivial counts these pairs (enumerated once each). Catalogue also has commands that exit 0 while a child holds stdout until shortly after the deadline (within the pipe grace period). The util run executes in a desktop-session environment (DISPLAY set, who/id/sudo/notify-send stand-ins, sudo hanging). Fifth run: eight concurrent callers of SafeCmdExecution in a race-instrumented build (per-call verdicts, happens-before reports inside internal/util, a fatal runtime error kills the worker).',
+         'distinct_nontrivial counts these pairs (enumerated once each). Catalogue also has commands that exit 0 while a child holds stdout until shortly after the deadline (within the pipe grace period). The util run executes in a desktop-session environment (DISPLAY set, who/id/sudo/notify-send stand-ins, sudo hanging). Fifth run: eight concurrent callers of SafeCmdExecution in a race-instrumented build (per-call verdicts, happens-before reports inside internal/util, a fatal runtime error kills the worker). Catalogue additionally: 4 MiB of multi-line non-numeric output, executable text files without a #! line (alone and with a grandchild holding stdout).',
  'assumptions': ['real wall clock of the sandbox: a call counts as late only beyond timeout + 3 s; the defects this separates block for 60 s or crash',
                  '/bin/sh, sleep, head, tr of the sandbox behave as on a normal Linux system'],
  'level_text': 'complete enumeration of the stated finite catalogue of command failure modes, for each timeout and each call site, executed as '
